@@ -24,6 +24,10 @@ def variants():
           {"host": "queued", "family": "plain"},
           {"host": "queued_off", "family": "spied"},
           {"host": "queued_off", "family": "plain", "drive": "queue"}]
+    # charts in which only some of the states carry the decorator
+    for fam in ("mixed_even_spied", "mixed_odd_spied"):
+        vs += [{"host": "plain", "family": fam}, {"host": "instrumented", "family": fam}, {"host": "queued", "family": fam, "drive": "queue"},
+               {"host": "queued_off", "family": fam}]
     vs += [{"host": "plain", "family": "plain_same_name"}, {"host": "instrumented", "family": "spied_same_name"},
            {"host": "queued", "family": "spied_same_name", "drive": "queue", "live_spy": True, "live_trace": True},
            {"host": "queued_off", "family": "spied_same_name"}]
